@@ -35,11 +35,26 @@ def rankOfList {α : Type} [BEq α] (xs : List α) (x : α) : Nat :=
   | some i => i
   | none => xs.length
 
+def triOfStr (s : String) : Tri := if s == "y" then .yes else if s == "n" then .no else .raises
+
+/-- `"meta": [tag per class]`, `"chk": [[fn, [params|null], vid, "y"|"n"|"r"], ...]` -/
+def chkOfJson (j : Json) : Except String ((Nat → Nat) × (Nat → List (Option Nat) → Nat → Tri)) := do
+  let metas ← (← jArr (jFieldD j "meta" (Json.arr #[]))).toList.mapM jNat
+  let rows ← (← jArr (jFieldD j "chk" (Json.arr #[]))).toList.mapM (fun r => do
+    let a ← jArr r
+    let ps ← (← jArr a[1]!).toList.mapM (fun p => if p.isNull then pure none else some <$> jNat p)
+    return ((← jNat a[0]!, ps, ← jNat a[2]!), triOfStr (← jStr a[3]!)))
+  return (fun c => metas[c]?.getD 0,
+          fun fn ps vid => match rows.find? (fun r => r.1 == (fn, ps, vid)) with
+            | some r => r.2
+            | none => .raises)
+
 def cfgOfJson (j : Json) : Except String Cfg := do
   let H ← hierOfJson (← jField j "hier")
   let tr ← (← jArr (jFieldD j "tyrank" (Json.arr #[]))).toList.mapM tyOfJson
   let hr ← (← jArr (jFieldD j "hrank" (Json.arr #[]))).toList.mapM jNat
-  return { H := H, tyRank := fun t => rankOfList tr t, hRank := fun h => rankOfList hr h }
+  let (metaOf, chk) ← chkOfJson j
+  return { H := H, tyRank := fun t => rankOfList tr t, hRank := fun h => rankOfList hr h, metaOf := metaOf, chk := chk }
 
 partial def entryToJson : Entry → Json
   | .meth id => Json.arr #[Json.str "m", toJson id]
